@@ -415,6 +415,20 @@ class LFRicStencils(LFRicCollection):
         '''
         return self._unique_extent_vars + self._unique_direction_vars
 
+    @property
+    def unique_alg_args(self):
+        '''
+        :returns: the extent and direction arguments as they are written \
+                  in the Algorithm layer (e.g. 'info%depth(1)'), in the same \
+                  order as the PSy-layer names given by `unique_alg_vars`.
+        :rtype: list of str
+
+        '''
+        return ([arg.stencil.extent_arg.text
+                 for arg in self._unique_extent_args] +
+                [arg.stencil.direction_arg.text
+                 for arg in self._unique_direction_args])
+
     def _invoke_declarations(self, parent):
         '''
         Declares all stencil maps, extent and direction arguments passed into
